@@ -166,6 +166,12 @@ def run(rep, tier):
     rep.rule("R8", "lower/upper (start/end) side agreement in the contour and spacing code")
     n = sides.check(prog, rep, "R8", lambda f: f.module.rel == "hypnotoad/core/equilibrium.py", "contour and spacing code (core/equilibrium.py)")
     rep.floor("R8.sided-sites", n, 80)
+    # "region end points are not moved by redistribution": the end point is remembered as a marker
+    # into the point list; guard points added before regridding must shift it per point
+    rep.rule("R9", "premise: start/end markers stay on the same points when guard points are added (C11.R4)")
+    from ..report import Premise
+    from . import c11
+    c11.marker_shift_rules(prog, Premise(rep, "R9", "C11"))
     rep.undecided("interior monotonicity for all parameter values (run-time _checkMonotonic)")
     return __doc__
 
